@@ -2048,17 +2048,110 @@ def unit_delegators(eng, tier, prop):
                         wraps = len(inner) == 1 and isinstance(inner[0], Adt) and inner[0].lazy is not None and inner[0].lazy.name == "clone_of_the_instance"
                         u.must_be_true(f"C15.{acc}-fresh-helper-wraps-one-clone-of-this-instance", wraps and clones == [("unimock_clone", "the_instance")], {"returned": repr(tgt)[:80], "clones": clones})
             u.must_be_true(f"C15.{acc}-explored-with-and-without-an-existing-helper", seen == {True, False}, {"seen": sorted(seen)})
-        # Rc / Arc: helpers are clones of the pointee
-        with opaque_calls(eng, [r"^<(Rc|Arc) as Deref>::deref$|^(Rc|Arc)::new$"]):
+        # Rc / Arc receivers: the helper is a clone sharing the state, or - when the receiver is the last Rc - takes over the
+        # instance itself. The caller's instance must not be RELEASED before the default body has run: dropping the last
+        # Rc<Unimock> while only a clone lives in the helper tears the original down with a clone alive (C09 makes that a
+        # panic), so the default body would never run (C15).
+        strong = eng.named("rc.strong_count", 64)
+        rc_ty = re.compile(r"^(alloc::)?(rc::|sync::)?(Rc|Arc)<((\w+::)*)Unimock>$")
+        rcd_ty = re.compile(r"^(alloc::)?(rc::|sync::)?(Rc|Arc)<((\w+::)*)DefaultImplDelegator>$")
+
+        def mk_rc(kind, pointee, tag):
+            a = Adt(kind, None)
+            a.tag = (tag,)
+            a.fields[(None, 0)] = Cell(pointee, None, tag + ".pointee")
+            return a
+
+        def rc_of(call, v):
+            hops = 0
+            while isinstance(v, Ref) and hops < 3:
+                v = v.cell.val
+                hops += 1
+            if not (isinstance(v, Adt) and v.ty in ("Rc", "Arc")):
+                raise Unsupported(f"Rc operation on {v!r}")
+            return v
+
+        def h_rc_deref(call):
+            return Ref(rc_of(call, call.argv[0]).fields[(None, 0)])
+
+        def h_rc_new(call):
+            return mk_rc("Arc" if "Arc" in call.norm else "Rc", call.argv[0], "new_rc")
+
+        def h_try_unwrap(call):
+            rc = rc_of(call, call.argv[0])
+            k = eng.decide(call.m, ("try_unwrap", call.fr.bb), [strong == 1, strong != 1])
+            call.m.event("rc_try_unwrap", k == 0)
+            if k == 0:
+                return eng.mk_enum("Result", "Ok", rc.fields[(None, 0)].val)
+            return eng.mk_enum("Result", "Err", rc)
+
+        def h_into_inner(call):
+            rc = rc_of(call, call.argv[0])
+            k = eng.decide(call.m, ("into_inner", call.fr.bb), [strong == 1, strong != 1])
+            call.m.event("rc_try_unwrap", k == 0)
+            if k == 0:
+                return eng.mk_enum("Option", "Some", rc.fields[(None, 0)].val)
+            return eng.mk_enum("Option", "None")
+        rch = [(re.compile(r"^<(Rc|Arc) as Deref>::deref$"), h_rc_deref), (re.compile(r"^(Rc|Arc)::new$"), h_rc_new),
+               (re.compile(r"^(Rc|Arc)::try_unwrap$"), h_try_unwrap), (re.compile(r"^(Rc|Arc)::into_inner$"), h_into_inner)]
+        for h in rch:
+            eng.handlers.insert(0, h)
+        try:
             for kind in ("Rc", "Arc"):
                 f = next((v for k, v in by.items() if k[0] == "to_delegator" and k[1].startswith(kind + "<")), None)
-                u.must_be_true(f"C15.{kind}-delegator-impl-found", f is not None)
-                if f is None:
+                g = next((v for k, v in by.items() if k[0] == "from_delegator" and k[1].startswith(kind + "<")), None)
+                u.must_be_true(f"C15.{kind}-delegator-impl-found", f is not None and g is not None)
+                if f is None or g is None:
                     continue
-                paths = u.explore(f, [Opaque(f.params[0][1], "rc_self")])
+                may_hold_original = False
+                mach = eng.start(f, [mk_rc(kind, lazy_adt("Unimock", "the_instance"), "rc_self")])
+                mach.pc.append(z3.UGE(strong, 1))
+                paths = eng.explore(mach)
+                u.paths += len(paths)
                 for p in paths:
-                    if p.outcome[0] == "return":
-                        u.must_be_true(f"C15.{kind}-helper-is-a-clone-sharing-the-state", len(events(p, "unimock_clone")) == 1)
+                    if p.outcome[0] in ("unknown", "bound"):
+                        u.errors.append(f"{kind} to_delegator: {p.outcome[0]}: {p.outcome[1]}")
+                        continue
+                    if p.outcome[0] != "return" or eng.check(p.pc) != z3.sat:
+                        continue
+                    r = p.outcome[1]
+                    helper = r.fields[(None, 0)].val if isinstance(r, Adt) and r.ty in ("Rc", "Arc") else None
+                    inner = [c.val for c in helper.fields.values()] if isinstance(helper, Adt) else []
+                    nm = inner[0].lazy.name if len(inner) == 1 and isinstance(inner[0], Adt) and inner[0].lazy is not None else None
+                    clones = events(p, "unimock_clone")
+                    u.must_be_true(f"C15.{kind}-helper-is-this-instance-or-one-clone-of-it",
+                                   (nm == "clone_of_the_instance" and clones == [("unimock_clone", "the_instance")]) or (nm == "the_instance" and not clones), {"helper_holds": nm, "clones": clones})
+                    released = [e for e in p.trace if e[0] == "drop" and rc_ty.match(str(e[3]).replace(" ", ""))]
+                    if nm == "the_instance":
+                        may_hold_original = True
+                        u.must_be_true(f"C15.{kind}-receiver-moved-into-the-helper-is-not-also-released", not released, {"drops": released})
+                    elif released:
+                        u.must_hold(f"C15.{kind}-receiver-not-released-before-the-default-body-runs", p.pc, z3.UGT(strong, 1), {"released": [e[1:] for e in released], "helper_holds": nm})
+                # the way back (a by-Rc required method called from the default body): the instance held by the helper is not
+                # released while a clone of it is handed on
+                for holds in (["clone_of_the_instance", "the_instance"] if may_hold_original else ["clone_of_the_instance"]):
+                    dlg = Adt("DefaultImplDelegator", None)
+                    dlg.fields[(None, 0)] = Cell(lazy_adt("Unimock", holds), None, "delegator.unimock")
+                    mach = eng.start(g, [mk_rc(kind, dlg, "rc_delegator")])
+                    mach.pc.append(z3.UGE(strong, 1))
+                    paths = eng.explore(mach)
+                    u.paths += len(paths)
+                    for p in paths:
+                        if p.outcome[0] in ("unknown", "bound"):
+                            u.errors.append(f"{kind} from_delegator: {p.outcome[0]}: {p.outcome[1]}")
+                            continue
+                        if p.outcome[0] != "return" or eng.check(p.pc) != z3.sat:
+                            continue
+                        r = p.outcome[1]
+                        got = r.fields[(None, 0)].val if isinstance(r, Adt) and r.ty in ("Rc", "Arc") else None
+                        nm = got.lazy.name if isinstance(got, Adt) and got.lazy is not None else None
+                        u.must_be_true(f"C15.{kind}-mock-handed-back-is-the-helpers-instance-or-a-clone-of-it", nm in (holds, "clone_of_" + holds), {"got": nm, "helper_holds": holds})
+                        released = [e for e in p.trace if e[0] == "drop" and rcd_ty.match(str(e[3]).replace(" ", ""))]
+                        if holds == "the_instance" and nm != holds and released:
+                            u.must_hold(f"C15.{kind}-helper-holding-the-instance-not-released-while-its-clone-is-handed-on", p.pc, z3.UGT(strong, 1), {"released": [e[1:] for e in released]})
+        finally:
+            for h in rch:
+                eng.handlers.remove(h)
     finally:
         eng.handlers.remove((clone_rx, h_clone))
     return u.result()
@@ -2699,7 +2792,187 @@ def unit_display_call(eng, tier, prop):
     return u.result()
 
 
+def unit_chain_schedules(eng, tier, prop):
+    """C13 / C10: concurrent `ValueChain::push_node` through a shared reference. The per-thread step programs (sequences of
+    OnceCell operations with their outcomes, and which node the call returns) are extracted from the MIR; the interleaving of
+    T threads is a SYMBOLIC schedule; the solver decides for every schedule that each push returns a reference to ITS OWN node,
+    that every node ends up linked exactly once, and that earlier nodes are never displaced."""
+    configs = [(2, 0), (2, 1), (3, 0)] + ([(3, 1), (4, 0), (2, 2)] if tier == "thorough" else [])
+    u = Unit(eng, "chain-schedules", ["ValueChain::push_node", "ValueChain::push_value", "Node::new"],
+             "threads x pre-existing nodes in " + ", ".join(f"{t}x{p_}" for t, p_ in configs) + "; every interleaving of the OnceCell operations (each one atomic: the cell library is trusted); sequentially consistent")
+    f = eng.find_fn(r"^value_chain::.*::push_node$")
+    i_root = field_index(eng, "ValueChain", "root")
+    i_next = field_index(eng, "Node", "next")
+    i_val = field_index(eng, "Node", "value")
+    MAXD = max(t + p_ for t, p_ in configs)
+
+    def chaincell(d):
+        a = Adt("OnceCell", None)
+        a.tag = ("chaincell", d)
+        return a
+
+    def existing(d):
+        n = Adt("Node", None)
+        n.tag = ("existing", d)
+        v = Adt("Value", None)
+        v.tag = ("value_of_existing", d)
+        n.fields[(None, i_val)] = Cell(v, None, f"node{d}.value")
+        n.fields[(None, i_next)] = Cell(Ref(Cell(chaincell(d + 1), None, f"cell{d + 1}"), "box"), None, f"node{d}.next")
+        return n
+
+    def depth_of(call, r):
+        c = call.deref(r, "adt") if isinstance(r, Ref) else r
+        if not (isinstance(c, Adt) and c.tag and c.tag[0] == "chaincell"):
+            raise Unsupported(f"OnceCell operation on an untracked cell {c!r}")
+        return c.tag[1]
+
+    def fork(call, key, d):
+        if d >= MAXD:
+            return 0        # beyond the bound every cell is empty (at most MAXD nodes exist)
+        b = eng.fresh_bool(f"cell{d}.empty")
+        return eng.decide(call.m, (key, call.fr.bb, d), [b, z3.Not(b)])
+
+    def h_try_insert(call):
+        d = depth_of(call, call.argv[0])
+        k = fork(call, "ti", d)
+        if k == 0:
+            call.m.event("once", "try_insert", d, "ok")
+            return eng.mk_enum("Result", "Ok", Ref(Cell(call.argv[1], None, "inserted")))
+        call.m.event("once", "try_insert", d, "full")
+        t = Adt("(tuple)", None)
+        t.fields[(None, 0)] = Cell(Ref(Cell(existing(d), None, f"node{d}")), None, "t.0")
+        t.fields[(None, 1)] = Cell(call.argv[1], None, "t.1")
+        return eng.mk_enum("Result", "Err", t)
+
+    def h_get(call):
+        d = depth_of(call, call.argv[0])
+        k = fork(call, "get", d)
+        if k == 0:
+            call.m.event("once", "get", d, "none")
+            return eng.mk_enum("Option", "None")
+        call.m.event("once", "get", d, "some")
+        return eng.mk_enum("Option", "Some", Ref(Cell(existing(d), None, f"node{d}")))
+
+    def h_goi(call):
+        d = depth_of(call, call.argv[0])
+        k = fork(call, "goi", d)
+        if k == 0:
+            call.m.event("once", "get_or_init", d, "init")
+            r = eng.call_closure(call, call.argv[1], [], post=("once_init", Cell(None, None, "slot")))
+            if r is None:
+                raise UnknownCallee(call.norm, "opaque closure")
+            return r
+        call.m.event("once", "get_or_init", d, "existing")
+        return Ref(Cell(existing(d), None, f"node{d}"))
+
+    def h_other(call):
+        raise Unsupported(f"OnceCell operation without a concurrency model: {call.norm}")
+    hs = [(re.compile(r"OnceCell::try_insert$"), h_try_insert), (re.compile(r"OnceCell::get$"), h_get), (re.compile(r"OnceCell::get_or_init$"), h_goi),
+          (re.compile(r"OnceCell::(set|get_or_try_init|take|get_mut|into_inner|wait)$"), h_other)]
+    for h in hs:
+        eng.handlers.insert(0, h)
+    try:
+        chain = Adt("ValueChain", None)
+        chain.fields[(None, i_root)] = Cell(chaincell(0), None, "cell0")
+        own = Adt("Node", None)
+        own.tag = ("own",)
+        ov = Adt("Value", None)
+        ov.tag = ("own_value",)
+        own.fields[(None, i_val)] = Cell(ov, None, "own.value")
+        own.fields[(None, i_next)] = Cell(Ref(Cell(chaincell(-1000), None, "own.next.cell"), "box"), None, "own.next")
+        paths = u.explore(f, [Ref(Cell(chain, None, "chain")), own])
+    finally:
+        for h in hs:
+            eng.handlers.remove(h)
+    progs = []
+    for p in paths:
+        if p.outcome[0] in ("unknown", "bound"):
+            continue
+        if p.outcome[0] != "return":
+            u.must_be_true("C13.push-never-panics", False, {"outcome": repr(p.outcome)[:200]})
+            continue
+        ops = [e[1:] for e in p.trace if e[0] == "once"]
+        r = p.outcome[1]
+        tgt = r.cell.val if isinstance(r, Ref) else r
+        ident = tgt.tag if isinstance(tgt, Adt) and tgt.tag else None
+        u.must_be_true("C13.push-returns-a-node-of-the-chain", ident is not None and ident[0] in ("own", "existing"), {"returned": repr(tgt)[:100]})
+        if ident is None:
+            continue
+        progs.append((ops, ident))
+    u.witness("step programs extracted", [z3.BoolVal(len(progs) >= 2)])
+    if not progs or u.errors:
+        return u.result()
+    u.samples.append({"step_programs": [{"ops": [list(o) for o in ops], "returns": list(idn)} for ops, idn in progs[:8]]})
+    maxlen = max(len(ops) for ops, _ in progs)
+    W = 4
+    PRE = 15
+    for T, P in configs:
+        ncell = T + P + 1
+        usable = [(ops, idn) for ops, idn in progs if all(o[1] < ncell for o in ops)]
+        S = T * max(len(ops) for ops, _ in usable)
+        label = f"{T} threads, {P} earlier nodes"
+        sched = [z3.BitVec(f"sched[{s_}]", W) for s_ in range(S)]
+        choice = [z3.BitVec(f"path[{t}]", W) for t in range(T)]
+        idx = [[z3.BitVec(f"idx[{t}][{s_}]", W) for s_ in range(S + 1)] for t in range(T)]
+        cell = [[z3.BitVec(f"cell[{k}][{s_}]", W) for s_ in range(S + 1)] for k in range(ncell)]
+        cs = []
+        for t in range(T):
+            cs += [z3.ULT(choice[t], len(usable)), idx[t][0] == 0]
+        for k in range(ncell):
+            cs.append(cell[k][0] == (PRE if k < P else 0))
+        plen = lambda t: z3.Sum([z3.If(choice[t] == j, z3.BitVecVal(len(usable[j][0]), W), z3.BitVecVal(0, W)) for j in range(len(usable))])
+        contention = []
+        for s_ in range(S):
+            alldone = z3.And([idx[t][s_] == plen(t) for t in range(T)])
+            cs.append(z3.ULT(sched[s_], T))
+            for t in range(T):
+                me = sched[s_] == t
+                # a scheduled thread has an operation left, unless everybody is done (then time just passes)
+                cs.append(z3.Implies(z3.And(me, z3.Not(alldone)), z3.ULT(idx[t][s_], plen(t))))
+                cs.append(z3.Implies(z3.Or(z3.Not(me), alldone), idx[t][s_ + 1] == idx[t][s_]))
+                cs.append(z3.Implies(z3.And(me, z3.Not(alldone)), idx[t][s_ + 1] == idx[t][s_] + 1))
+                for j, (ops, idn) in enumerate(usable):
+                    for i, (kind, d, outc) in enumerate(ops):
+                        here = z3.And(me, z3.Not(alldone), choice[t] == j, idx[t][s_] == i)
+                        cur = cell[d][s_]
+                        empty = cur == 0
+                        writes = (kind == "try_insert" and outc == "ok") or (kind == "get_or_init" and outc == "init")
+                        consistent = empty if outc in ("ok", "none", "init") else z3.Not(empty)
+                        cs.append(z3.Implies(here, consistent))
+                        for k in range(ncell):
+                            if writes and k == d:
+                                cs.append(z3.Implies(here, cell[k][s_ + 1] == t + 1))
+                            else:
+                                cs.append(z3.Implies(here, cell[k][s_ + 1] == cell[k][s_]))
+                        if outc in ("full", "some", "existing"):
+                            contention.append(z3.And(here, cur != PRE))
+            for k in range(ncell):
+                cs.append(z3.Implies(alldone, cell[k][s_ + 1] == cell[k][s_]))
+        done = z3.And([idx[t][S] == plen(t) for t in range(T)])
+        # what each push returned
+        bad = []
+        for t in range(T):
+            for j, (ops, idn) in enumerate(usable):
+                ret = z3.BitVecVal(t + 1, W) if idn[0] == "own" else cell[idn[1]][S]
+                bad.append(z3.And(choice[t] == j, ret != t + 1))
+        lost = []
+        for t in range(T):
+            cnt = z3.Sum([z3.If(cell[k][S] == t + 1, z3.BitVecVal(1, W), z3.BitVecVal(0, W)) for k in range(ncell)])
+            lost.append(cnt != 1)
+        displaced = [cell[k][S] != PRE for k in range(P)]
+        u.must_be_unsat(f"C13.every-push-returns-its-own-node[{label}]", cs + [done, z3.Or(bad)], {"config": label}, logic="QF_BV")
+        u.must_be_unsat(f"C13.every-node-linked-exactly-once[{label}]", cs + [done, z3.Or(lost)], {"config": label}, logic="QF_BV")
+        if displaced:
+            u.must_be_unsat(f"C13.earlier-nodes-never-displaced[{label}]", cs + [done, z3.Or(displaced)], {"config": label}, logic="QF_BV")
+        # every schedule can complete within the step budget (no thread is starved by the bound)
+        u.must_be_unsat(f"C10.every-schedule-completes-within-the-step-budget[{label}]", cs + [z3.Not(done)], {"config": label}, logic="QF_BV")
+        u.witness(f"a complete schedule exists [{label}]", cs + [done], logic="QF_BV")
+        u.witness(f"a schedule with contention exists [{label}]", cs + [done, z3.Or(contention)] if contention else [z3.BoolVal(False)], logic="QF_BV")
+    return u.result()
+
+
 UNITS = {
+    "chain_schedules": unit_chain_schedules,
     "display_call": unit_display_call,
     "generated_forwarding": _generated_forwarding,
     "output_containers": unit_output_containers,
